@@ -1235,3 +1235,44 @@ Proof.
   - now apply (last_marker_clean m).
   - now rewrite !find_tmux_no_percent.
 Qed.
+
+(* ==================================================================================== *)
+(* the look-ahead is on the text AFTER the last marker (pinned shape of the Go statement),
+   so finished-transfer words in the output BEFORE a trigger do not matter *)
+
+Lemma finished_shape_ok :
+  Consts.det_finished_shape =
+  bs "if len(subOutput) > 40 { for _, s := range WORDS { if bytes.Contains(subOutput[40:], []byte(s)) { return output, nil } } }".
+Proof. reflexivity. Qed.
+
+Lemma not_in_by_forallb : forall c l, forallb (fun x => negb (x =? c)) l = true -> ~ In c l.
+Proof.
+  intros c l H Hin. rewrite forallb_forall in H. specialize (H c Hin). now rewrite N.eqb_refl in H.
+Qed.
+
+(* `ls` showing "Saved Games" (the word at offset >= 40 of the read), then trz: the premises
+   of fires_clean hold, so the theorem applies and the transfer starts *)
+Lemma fires_after_finished_word_example :
+  let pre := bs "drwxr-xr-x  2 user user 4096 Jan  1 00:00 Saved Games" ++ [CR; LF] ++ bs "$ trz" ++ [CR; LF; 27; 55; 7] in
+  let id := [48; 49; 50; 51; 52; 53; 54; 55; 56; 57; 49; 50; 48] in
+  let m := {| m_mode := 82; m_ver := vtext [49] [49] [54]; m_id := Some id; m_port := Some [48] |} in
+  let txt := trig_text 82 [49] [49] [54] (Some id) (Some [48]) in
+  finished (skipn (N.to_nat Consts.det_finished_offset) pre) = true /\
+  forall relay, detect false (new_det relay false) false (pre ++ txt ++ [CR; LF]) =
+    (if relay then pre ++ txt ++ Consts.det_relay_suffix ++ [CR; LF]
+     else replace_all Consts.det_client_old Consts.det_client_new (pre ++ txt ++ [CR; LF]),
+     Some {| t_mode := 82; t_version := (1, 1, 6); t_id := id; t_win := false; t_port := 0; t_prefix := [] |},
+     set_map (new_det relay false) [(id, 0)]).
+Proof.
+  intros pre id m txt. split; [vm_compute; reflexivity|]. intro relay.
+  rewrite (fires_clean false (new_det relay false) false pre m txt [CR; LF] (1, 1, 6)).
+  - destruct relay; reflexivity.
+  - cbn. now rewrite andb_false_r.
+  - apply TT; [reflexivity | | | | | | intro H; discriminate H]; (split; [discriminate | reflexivity]).
+  - split; [reflexivity|]. intros _ r Hr. discriminate Hr.
+  - reflexivity.
+  - apply not_in_by_forallb. vm_compute. reflexivity.
+  - vm_compute. reflexivity.
+  - vm_compute. reflexivity.
+  - intros _. reflexivity.
+Qed.
